@@ -67,6 +67,7 @@ type check struct {
 	run      func(rt *rapid.T)
 	replay   func(raw json.RawMessage, o *Obs) error
 	enum     func(r *Run) // optional exhaustive enumeration instead of rapid
+	wal      bool
 }
 
 // Prop is a generated check: Gen draws a case, Pred decides it.
@@ -239,7 +240,7 @@ func (r *Run) record(chk string, raw []byte, o *Obs, err error) {
 
 // Add registers a generated check.
 func Add[T any](r *Run, p Prop[T]) {
-	c := &check{name: p.Name, quick: p.Quick, thorough: p.Thorough}
+	c := &check{name: p.Name, quick: p.Quick, thorough: p.Thorough, wal: p.WAL}
 	eval := func(cs T, raw []byte, witness bool) (*Obs, error) {
 		o := &Obs{Witness: witness}
 		if p.WAL && !witness {
@@ -450,6 +451,12 @@ func (r *Run) witnesses() {
 			continue
 		}
 		o := &Obs{}
+		if c.wal {
+			// a witness of a process-killing defect: log it first so that, if it regresses and
+			// kills this process, the driver re-runs it alone and reports the violation
+			r.walOn = true
+			r.walWrite(chk, raw)
+		}
 		perr := c.replay(raw, o)
 		switch {
 		case f.Status == "known" && perr != nil:
